@@ -12,6 +12,8 @@ import GivaroModel.Lemmas.PrimesTabAll
 import GivaroModel.Lemmas.PrimesPower
 import GivaroModel.Lemmas.PrimesDivisors
 import GivaroModel.Lemmas.PrimesFactor
+import GivaroModel.Lemmas.PrimesFermat
+import GivaroModel.Lemmas.Primes16All
 namespace Givaro.Props.C12
 open Givaro Givaro.Model.Primes Givaro.Spec.Primes Givaro.Lemmas.Primes Givaro.Lemmas.PrimesTab
 
@@ -398,6 +400,78 @@ theorem set1_unfixed_counterexample (pf : Nat → Nat) : set1_unfixed pf (-15) =
 theorem set_not_sorted :
     Givaro.Model.Primes.set (fun m => (factor (fun x => x) (m : Int)).toNat) 561 = some ([(17, 1), (3, 1), (11, 1)], true) := by
   decide +kernel
+
+/-! ## The Lenstra (ECM) variant: `Lenstra(…)` and `factor` in a build with `-DGIVARO_LENSTRA` -/
+
+/-- with curves that return a non-trivial divisor of every composite, `Lenstra` (guards `n<3`, `isprime`, `%2`, `%3` included)
+    and `factor` routed through it return a non-trivial divisor of every composite `n > 1` -/
+theorem factor_nontrivial_lenstra (isp : Int → Bool) (hisp : ∀ n : Int, isp n = true ↔ Nat.Prime n.toNat)
+    (ecm : Int → Int) (hecm : EcmFull ecm) (n : Int) (hn : 1 < n) :
+    factorLen isp ecm n ∣ n ∧ 1 < factorLen isp ecm n ∧ factorLen isp ecm n ≤ n ∧
+      (¬ Nat.Prime n.toNat → factorLen isp ecm n < n) := factorLen_full isp hisp ecm hecm n hn
+
+/-- `factor_nontrivial_lenstra_partial`.  The full statement (previous theorem with `EcmObserved` in place of `EcmFull`:
+    `… ∧ (¬ Nat.Prime n.toNat → factorLen isp ecm n < n)`) is FALSE for the curves as they are, see the counterexample below;
+    what does hold: the failure value -1, or a divisor > 1 (possibly `n`). -/
+theorem factor_nontrivial_lenstra_partial (isp : Int → Bool) (hisp : ∀ n : Int, isp n = true ↔ Nat.Prime n.toNat)
+    (ecm : Int → Int) (hecm : EcmObserved ecm) (n : Int) (hn : 1 < n) :
+    factorLen isp ecm n = -1 ∨ (factorLen isp ecm n ∣ n ∧ 1 < factorLen isp ecm n ∧ factorLen isp ecm n ≤ n) :=
+  factorLen_partial isp hisp ecm hecm n hn
+
+/-- known finding C12-lenstra-trivial: an outcome the real curves do produce (`Lenstra(…, 994009 = 997², B1 = 2000, 8 curves)` returns
+    994009; the harness replays it) makes the returned "factor" of a composite trivial -/
+theorem factor_nontrivial_lenstra_counterexample :
+    ¬ (∀ (ecm : Int → Int), EcmObserved ecm → ∀ n : Int, 1 < n → ¬ Nat.Prime n.toNat →
+        factorLen (fun m : Int => isPrimeDec m.toNat) ecm n < n) := by
+  intro h
+  have hobs : EcmObserved (fun m => m) := fun m hm => Or.inr ⟨by show (1 : Int) < m; omega, Int.le_refl m, Int.dvd_refl m⟩
+  have := h (fun m => m) hobs 994009 (by decide) (by rw [← isPrimeDec_iff]; decide +kernel)
+  revert this
+  decide +kernel
+
+/-- `iffactorprime` of the `-DGIVARO_LENSTRA` build (Lenstra in the two leading `factor` calls, Pollard in the loop) returns a prime
+    factor of every `n > 1` under the full contracts -/
+theorem iffactorprime_prime_lenstra (isp : Int → Bool) (hisp : ∀ n : Int, isp n = true ↔ Nat.Prime n.toNat)
+    (ecmF : Nat → Int → Int) (hecmF : ∀ i, EcmFull (ecmF i)) (rho : Nat → Int → Int) (hrho : ∀ i, RhoFull (rho i))
+    (ecm : Int → Int) (n : Int) (hn : 1 < n) :
+    ∃ r, iffactorprimeL isp ecmF rho ecm (n.toNat + 1) n = some r ∧ Nat.Prime r.toNat ∧ r ∣ n ∧ 1 < r :=
+  iffactorprimeL_full isp hisp ecmF hecmF rho hrho ecm n hn (n.toNat + 1) (by omega)
+
+/-! ## Fermat numbers (`FermatDom`) -/
+
+/-- `fermat(f, n)` is `2^(2^n) + 1` for every n the `unsigned` shift `1u << n` admits -/
+theorem fermat_exact (n : Nat) (hn : n < 32) : fermat n = Nat.fermatNumber n := fermat_eq n hn
+
+/-- **Pépin.** `pepin(n)` answers true exactly when the Fermat number is prime (n = 0 with fixes/C12_7) -/
+theorem pepin_iff_prime (n : Nat) (hn : n < 32) : pepin n = true ↔ Nat.Prime (Nat.fermatNumber n) := pepin_iff_prime' n hn
+
+/-- the defect repaired by fixes/C12_7: base 3 is not coprime to `F_0 = 3`, the unchanged `pepin(0)` answered false for a prime -/
+theorem pepin_unfixed_counterexample : pepin_unfixed 0 = false ∧ Nat.Prime (Nat.fermatNumber 0) := by
+  refine ⟨by decide +kernel, ?_⟩
+  rw [Nat.fermatNumber_zero]; exact Nat.prime_three
+
+/-! ## `Primes16` -/
+
+/-- **The whole table.** `Primes16::_primes` (as extracted from givprimes16.C now) is exactly the increasing list of the primes
+    below 2^16 (2^16 trial divisions in the kernel, Lemmas/Primes16/R0…R3) … -/
+theorem primes16_exact : primes16 = (List.range 65536).filter (fun n => decide (Nat.Prime n)) := by
+  rw [Givaro.Lemmas.Primes16.primes16_eq_filter]
+  apply List.filter_congr
+  intro n _
+  by_cases h : Nat.Prime n
+  · simp [h, (isPrimeDec_iff n).2 h]
+  · have : isPrimeDec n = false := by
+      rcases hb : isPrimeDec n with _ | _
+      · rfl
+      · exact absurd ((isPrimeDec_iff n).1 hb) h
+    simp [h, this]
+
+/-- … so `ith(i)` enumerates them and `count()` is their number -/
+theorem primes16_mem (p : Nat) : p ∈ primes16 ↔ Nat.Prime p ∧ p < 65536 := by
+  rw [primes16_exact, List.mem_filter, List.mem_range]
+  simp [and_comm]
+
+theorem primes16_count : primes16.length = primes16Size := by decide +kernel
 
 /-! ## Non-vacuity of the hypotheses -/
 
